@@ -255,6 +255,16 @@ def r3_scans(repo, report):
     if r5 is None or r3 is None:
         report.unrecognised("C13.R3", "quality_trim_index: initial values", "scan roles not identified", repo.loc(q))
     else:
+        # a variable shared by both scans must be reset BETWEEN them (the 5' scan leaves its own values behind)
+        between = {}
+        for st in body[body.index(l5) + 1:body.index(l3)]:
+            if isinstance(st, (ast.Assign, ast.AnnAssign)) and getattr(st, "value", None) is not None:
+                t = st.targets[0] if isinstance(st, ast.Assign) else st.target
+                if isinstance(t, ast.Name):
+                    between[t.id] = src(st.value)
+        for role in ("sum", "best"):
+            if r3[role] == r5[role]:
+                v3[r3[role]] = between.get(r3[role], "<not reset after the 5' scan>")
         nvar = [k for k, v in v5.items() if v == f"len({params(q)[0]})"]
         ok = v5.get(r5["sum"]) == "0" and v5.get(r5["best"]) == "0" and v5.get(r5["index"]) == "0" and v3.get(r3["sum"]) == "0" and v3.get(r3["best"]) == "0" and len(nvar) == 1 and v3.get(r3["index"]) == nvar[0] and src(l5.iter) == f"range({nvar[0]})"
         report.ob("C13.R3", "quality_trim_index: initial values", ok, facts={"before_5p": {k: v5.get(v) for k, v in r5.items()}, "before_3p": {k: v3.get(v) for k, v in r3.items()}}, expected="sum and best reset to 0 before each scan; start = 0, stop = n", loc=repo.loc(q))
